@@ -228,6 +228,7 @@ package kubeeventsmanager
 // C09: the cached entries carry the full object exactly when keepFullObjectsInMemory.
 //@ func (*resourceInformer).loadExistedObjects
 //@   prop C02, C09
+//@   opt wf=allocated
 //@   requires ei.Monitor != nil && ei.cachedObjects != nil && ei.cachedObjectsInfo != nil && ei.KubeClient != nil && nFilter >= 0
 //@   modifies mapof(ei.cachedObjects), fields(ei.cachedObjectsInfo), lastList, lastListErr, lastFilterRes, lastFilterErr, nFilter, filterLog, all(kemtypes.ObjectAndFilterResult.Object), all(kemtypes.ObjectAndFilterResult.Metadata)
 //@   let n0 := old(nFilter)
